@@ -31,6 +31,19 @@ func FamilyShapeSkip(thorough bool) []*Conv {
 			}
 		}
 	}
+	// assignable but not identical pairs (named <-> unnamed with the same underlying type): no sharing allowed
+	for i, pr := range [][3]string{
+		{"PFXTags", "[]string", "type PFXTags []string"},
+		{"[]int", "PFXScores", "type PFXScores []int"},
+		{"PFXAttrs", "map[string]*int", "type PFXAttrs map[string]*int"},
+		{"[]PFXTags2", "[][]string", "type PFXTags2 []string"},
+		{"*PFXNums", "*[]int", "type PFXNums []int"},
+		{"map[string]PFXTags3", "map[string][]string", "type PFXTags3 []string"},
+	} {
+		s := shape{Src: pr[0], Tgt: pr[1], Name: fmt.Sprintf("assignable%d", i), Decls: []string{pr[2]}}
+		add(s)
+		add(ctorByName("struct").F(g, s))
+	}
 	// mixed structs: one identical-typed mutable field next to a converted one
 	k := 0
 	for _, inner := range []string{"[]int", "*int", "map[string]int", "[]*int", "map[string][]int", "*[]int", "any", "chan int"} {
@@ -290,7 +303,12 @@ func FamilyDefault(thorough bool) []*Conv {
 									fret = "(" + fres + ", error)"
 									body += ", nil"
 								}
-								decl := fmt.Sprintf("type PFXCtx struct{ Z int }\ntype PFXIn struct {\n\tName string\n\tAge int\n\tP *int\n\tL []int\n}\ntype PFXOut struct {\n\tName string\n\tAge int\n\tP *int\n\tL []int\n\tKeep string\n}\nfunc PFXNew(%s) %s { %s }\n",
+								fieldsIn, fieldsOut := "\tName string\n\tAge int\n\tP *int\n\tL []int\n", "\tName string\n\tAge int\n\tP *int\n\tL []int\n\tKeep string\n"
+								if n%2 == 0 {
+									// nested pointers below the method's pair
+									fieldsIn, fieldsOut = "\tName string\n\tM map[string]*int\n\tPP **int\n", "\tName string\n\tM map[string]*int\n\tPP **int\n\tKeep string\n"
+								}
+								decl := fmt.Sprintf("type PFXCtx struct{ Z int }\ntype PFXIn struct {\n"+fieldsIn+"}\ntype PFXOut struct {\n"+fieldsOut+"}\nfunc PFXNew(%s) %s { %s }\n",
 									strings.Join(fparams, ", "), fret, body)
 								params := "source " + src
 								if withCtx {
@@ -311,6 +329,7 @@ func FamilyDefault(thorough bool) []*Conv {
 									Spec: &Spec{Update: u, Pairs: map[string]*PairSpec{
 										"PFXIn→PFXOut": {Fields: map[string]*FieldSpec{"Keep": {Ignore: true}}},
 									}},
+									Bounds: &Bounds{MaxSlice: 1, MaxMap: 1, RecDepth: 1},
 								}
 								cv.ConvLines = []string{"arg:context:regex ^ctx"}
 								cv.MethodLines = []string{"default PFXNew", "ignore Keep"}
@@ -324,6 +343,24 @@ func FamilyDefault(thorough bool) []*Conv {
 								if srcPtr && !tgtPtr {
 									cv.MethodLines = append(cv.MethodLines, "useZeroValueOnPointerInconsistency")
 									cv.Spec.ZeroOnNil = true
+								}
+								// the context regex at method level for a third of them (must precede `default`)
+								if n%3 == 0 {
+									cv.ConvLines = nil
+									cv.MethodLines = append([]string{"arg:context:regex ^ctx"}, cv.MethodLines...)
+									if upd && n%2 != 0 {
+										cv.ConvLines = append(cv.ConvLines, "default:update yes")
+									}
+								}
+								// default:update together with update:ignoreZeroValueField[:basic]
+								if upd && n%4 < 2 {
+									if n%4 == 0 {
+										cv.MethodLines = append(cv.MethodLines, "update:ignoreZeroValueField")
+										u.SkipBasic, u.SkipStruct, u.SkipNillable = true, true, true
+									} else {
+										cv.ConvLines = append(cv.ConvLines, "update:ignoreZeroValueField:basic")
+										u.SkipBasic = true
+									}
 								}
 								out = append(out, cv)
 							}
